@@ -58,6 +58,9 @@ func c08AnchoredDoc(r *rand.Rand) string {
 	fmt.Fprintf(&sb, "refsmap:\n  web: *defaults\n  db: *sp\n  plain: %s\n", sc())
 	fmt.Fprintf(&sb, "ents:\n  - key: a\n    value: %s\n  - key: b\n", sc())
 	fmt.Fprintf(&sb, "scalar: &s %s\nuse: *s\n", sc())
+	// collections written in the other style than the block collections above (a sum or a copy made of both has to
+	// pick one: for ITS nodes, not for the document's)
+	fmt.Fprintf(&sb, "flowseq: [{v: 1, w: %s}, {v: 2}]\nflowmap: {name: web, port: %s}\n", sc(), sc())
 	if useCPU {
 		sb.WriteString("elsewhere: *cpu\n")
 	}
@@ -71,6 +74,14 @@ var c08AnchorPool = []string{
 	`. *? {"service": {"inner": {"retries": 9}}}`, `.service * .defaults`, `.service *? {"retries": 7}`, `.service *n {"retries": 7, "nw": 1}`,
 	`.items[0] * {"spec": {"a": 5}}`, `.items[0] *? {"spec": {"a": 5}}`, `.items[0] *n {"spec": {"a": 5, "zz": 1}}`, `.items[0] *d {"spec": {"b": [9]}}`,
 	`.refs * [{"a": 5}]`, `.refs *d [{"a": 5}]`, `.refs *? [{"a": 5}]`, `.service + {"retries": 9}`, `.items + [.spec]`, `.refs + .items`, `.refs - [1]`,
+	// sums of collections whose styles differ
+	`.flowseq + .service`, `.items + .flowmap`, `.flowseq + .refsmap`, `.items + .flowseq`, `.flowseq + .items`, `.flowseq + .spec`, `.refs + .flowmap`, `.flowmap + .service`, `.service + .flowmap`,
+	`.flowseq + [.service]`, `[.flowmap] + .items`,
+	// reduce whose accumulator is an object literal and whose block reads below the loop variable
+	// (`ro!`: only under the templates whose position is read-only - at the top level of an expression the reads below
+	// the loop variable auto-create, which is the recorded deviation of the main family)
+	`ro!.items[] as $u ireduce ({}; . * {"k": $u.meta.owner})`, `ro!.items[] as $u ireduce ({}; .[$u.v | tostring] = $u.meta.owner)`, `ro!.flowseq[] as $u ireduce ({}; . * {($u.v | tostring): $u.zz.deep})`,
+	`ro!.refsmap[] as $u ireduce ({"n": 0}; .n += ($u.zz_missing | length))`, `ro!.items[] as $u ireduce ([]; . + [$u.spec.zz])`, `ro!.flowseq[] as $u ireduce ({}; {"last": $u.meta.owner})`,
 	// comparisons and orderings over nodes that are or contain aliases
 	`.items | unique_by(.spec)`, `.items | unique`, `.items | group_by(.spec)`, `.items | sort_by(.spec)`, `.items | sort`, `.refs | unique`, `.refs | sort`,
 	`.items | unique_by(.spec.a)`, `.items | map(.spec == .spec)`, `.items[0] == .items[1]`, `.refs[0] == .spec`, `.items | any_c(.spec.a == 1)`,
@@ -99,10 +110,17 @@ func c08AnchorCase(w *mon.Worker, r *rand.Rand) mon.Result {
 			break
 		}
 	}
+	roOnly := strings.HasPrefix(e, "ro!")
+	e = strings.TrimPrefix(e, "ro!")
 	if r.IntN(4) == 0 {
-		e = "(" + e + "), (" + c08AnchorPool[r.IntN(len(c08AnchorPool)-30)] + ")"
+		if e2 := c08AnchorPool[r.IntN(len(c08AnchorPool)-30)]; !strings.HasPrefix(e2, "ro!") {
+			e = "(" + e + "), (" + e2 + ")"
+		}
 	}
 	tpl := r.IntN(5)
+	if roOnly {
+		tpl = []int{0, 1, 3}[r.IntN(3)]
+	}
 	var expr string
 	switch tpl {
 	case 0:
